@@ -47,3 +47,26 @@ func init() {
 		return 0
 	}
 }
+
+func init() {
+	extraCmds["locks"] = func(args []string) int {
+		p, err := Load(LoadConfig{Dir: "/repo", Tags: "vfs"})
+		if err != nil {
+			fmt.Fprintln(os.Stderr, err)
+			return 2
+		}
+		la := newLockAnalysis(p)
+		la.interproc()
+		for _, name := range args {
+			f := p.Func(name)
+			if f == nil {
+				fmt.Println("not found", name)
+				continue
+			}
+			for _, g := range withClosures(f) {
+				fmt.Printf("%s entry=%s deferred=%s summary: succ=%s fail=%s rel=%s\n", fnName(g), la.entry[g], la.deferred[g], la.summary(g).onSuccess, la.summary(g).onFailure, la.summary(g).releases)
+			}
+		}
+		return 0
+	}
+}
